@@ -153,9 +153,11 @@ impl InstructionGenerator {
         // (the body of a loop with an explicit step is generated twice,
         // the labels of the negative copy get a suffix to keep them unique)
         let label_suffix_len = self.label_suffix.len();
-        if !is_positive {
-            self.label_suffix.push_str("_negative-step");
-        }
+        self.label_suffix.push_str(if is_positive {
+            "_positive-step"
+        } else {
+            "_negative-step"
+        });
         self.for_depth += 1;
         self.visit(statements);
         self.for_depth -= 1;
